@@ -16,6 +16,7 @@ import (
 	"sort"
 	"strings"
 	"sync"
+	"sync/atomic"
 	"syscall"
 	"time"
 
@@ -25,6 +26,12 @@ import (
 // sem bounds the number of concurrently running generator / compiler
 // processes started through this package (shared machine: <= 6).
 var sem = make(chan struct{}, 6)
+
+// cumulative wall time (ns) and count of generator / compiler processes
+var (
+	GenNanos, BuildNanos int64
+	GenCount, BuildCount int64
+)
 
 func acquire() func() {
 	sem <- struct{}{}
@@ -100,6 +107,8 @@ func RunGen(root string, o GenOpts) GenOutcome {
 	t0 := time.Now()
 	out, rerr := vlib.RunCmd(dir, env, 5*time.Minute, bin, args...)
 	g := GenOutcome{Stderr: out, WallS: time.Since(t0).Seconds()}
+	atomic.AddInt64(&GenNanos, int64(time.Since(t0)))
+	atomic.AddInt64(&GenCount, 1)
 	switch {
 	case rerr == nil && strings.Contains(out, "PGEN-OUTCOME ok"):
 		g.Class = "ok"
@@ -129,6 +138,8 @@ func ImportBase(name string) string { return "verifharness/gen/" + vlib.GenName(
 // GoBuild compiles ./... below dir (a directory inside the harness module).
 func GoBuild(dir string) (string, error) {
 	defer acquire()()
+	t0 := time.Now()
+	defer func() { atomic.AddInt64(&BuildNanos, int64(time.Since(t0))); atomic.AddInt64(&BuildCount, 1) }()
 	return vlib.RunCmd(dir, vlib.GoEnv(), 15*time.Minute, "go", "build", "./...")
 }
 
